@@ -4,6 +4,7 @@ from qlib.model import AnalysisBroken
 from qlib.report import Rule
 from rules import jsontab
 from rules.C20 import rule_surrogate, rule_utf
+from rules.C07 import rule_scratch
 
 META = {
     "explanation": "E-TAB against RFC 8259: the escape-letter map of UnEscape equals section 7 (and only the "
@@ -26,6 +27,8 @@ STRUCT = {"QuoteChar": '"', "CommaChar": ",", "ColonChar": ":", "SCurlyChar": "{
           "CarriageControlChar": "\r", "B_Char": "b", "T_Char": "t", "N_Char": "n", "F_Char": "f", "R_Char": "r",
           "U_Char": "u"}
 
+
+META["explanation"] += " " + "(PR-scratch, shared with C07) every path of JSONParser::Parse clears the caller's scratch stream before parseValue runs."
 
 def run(ctx):
     m = ctx.pattern()
@@ -231,4 +234,5 @@ def run(ctx):
     rules.append(rule_sign_unit(ctx, m, ['JSON.hpp', 'JSONUtils.hpp', 'Digit.hpp', 'StringUtils.hpp', 'Unicode.hpp']))
     from rules.common import rule_accumulate
     rules.append(rule_accumulate(ctx, m))
+    rules.append(rule_scratch(ctx, m))
     return rules
